@@ -12,7 +12,7 @@ CONSTANTS
   G = 2
   R = 1
   Strict = FALSE
-  Phases <- Ph12
+  BootChoices <- Ph12
   Mtu = 1400
   Dts <- Dt1
   MaxFails = 1
